@@ -1697,6 +1697,7 @@ CheckChildForTraversal(TraversalContext & data, DataNode * nextChild, int32 optK
                                  depth = nextDepth;
                                  return true;
                               }
+                              if (nextDepth < ((int)nextChild->GetDepth())) return false;  // the callback wants the traversal to continue at our level, so we're done with (nextChild)
                               matched = true;
                               if (recursed) break;  // done both possible actions, so be lazy
                            }
@@ -1713,6 +1714,7 @@ CheckChildForTraversal(TraversalContext & data, DataNode * nextChild, int32 optK
                               depth = nextDepth;
                               return true;
                            }
+                           if (nextDepth < ((int)nextChild->GetDepth())) return false;  // a callback wants the traversal to continue at our level, so we're done with (nextChild)
                            recursed = true;
                            if (matched) break;  // done both possible actions, so be lazy
                         }
